@@ -868,19 +868,12 @@ class DynDiGraph(nx.DiGraph):
             if u is None:
                 return int(self.size())
             elif u is not None and v is not None:
-                if v in self._succ[u]:
-                    return 1
-                else:
-                    return 0
+                return 1 if self.has_interaction(u, v) else 0
         else:
             if u is None:
                 return int(self.size(t))
             elif u is not None and v is not None:
-                if v in self._succ[u]:
-                    if self.__presence_test(u, v, t):
-                        return 1
-                    else:
-                        return 0
+                return 1 if self.has_interaction(u, v, t) else 0
 
     def has_interaction(self, u, v, t=None):
         """Return True if the interaction (u,v) is in the graph at time t.
